@@ -25,4 +25,8 @@ Rec == LET L == Legal(pos) IN
        [k |-> PosKey(pos), ply |-> ply, seed |-> seed, n |-> Cardinality(L), v |-> Verdict(pos, L),
         succ |-> IF ply < MaxPly THEN { <<m.k, m.f, m.t, m.p, m.c, PosKey(Succ(pos, m))>> : m \in L } ELSE {}]
 Emit == PrintT(ToJson(Rec))
+\* With this VIEW (and one worker, i.e. strict breadth-first order) every position is recorded once, at
+\* its minimal distance from the seed: enough for folds of any depth <= MaxPly, and far smaller for the
+\* deep graphs of tiny endgames.
+PosView == pos
 =============================================================================
